@@ -171,9 +171,7 @@ impl Handler {
         Ok(())
     }
 
-    async fn serve(&mut self, store: &Store, options: ReadOptions) {
-        let mut recver = store.read(options).await;
-
+    async fn serve(&mut self, store: &Store, mut recver: tokio::sync::mpsc::Receiver<Frame>) {
         while let Some(frame) = recver.recv().await {
             // Skip registration activity that occurred before this handler was registered
             if (frame.topic == format!("{}.register", self.topic)
@@ -227,13 +225,16 @@ impl Handler {
     pub async fn spawn(&self, store: Store) -> Result<(), Error> {
         let options = self.configure_read_options().await;
 
+        // Subscribe before announcing: once `.registered` is visible the handler must
+        // already be subscribed, so that no later frame is missed
+        let recver = store.read(options.clone()).await;
+
         {
             let store = store.clone();
-            let options = options.clone();
             let mut handler = self.clone();
 
             tokio::spawn(async move {
-                handler.serve(&store, options).await;
+                handler.serve(&store, recver).await;
             });
         }
 
